@@ -238,6 +238,39 @@ func permuteSig(sig hotstuff.QuorumSignature) hotstuff.QuorumSignature {
 	return nil
 }
 
+// resplitSig keeps the signers and the concatenated signature bytes but moves all bytes under the first signer.
+func resplitSig(sig hotstuff.QuorumSignature) hotstuff.QuorumSignature {
+	switch s := sig.(type) {
+	case crypto.Multi[*crypto.EDDSASignature]:
+		if len(s) < 2 {
+			return nil
+		}
+		out := make(crypto.Multi[*crypto.EDDSASignature], 0, len(s))
+		for i, e := range s {
+			var b []byte
+			if i == 0 {
+				b = s.ToBytes()
+			}
+			out = append(out, crypto.RestoreEDDSASignature(b, e.Signer()))
+		}
+		return out
+	case crypto.Multi[*crypto.ECDSASignature]:
+		if len(s) < 2 {
+			return nil
+		}
+		out := make(crypto.Multi[*crypto.ECDSASignature], 0, len(s))
+		for i, e := range s {
+			var b []byte
+			if i == 0 {
+				b = s.ToBytes()
+			}
+			out = append(out, crypto.RestoreECDSASignature(b, e.Signer()))
+		}
+		return out
+	}
+	return nil
+}
+
 // truncSig drops the last signer of a multi-signature.
 func truncSig(sig hotstuff.QuorumSignature, drop int) hotstuff.QuorumSignature {
 	if drop <= 0 {
